@@ -325,6 +325,7 @@ class Ctx:
         or None when it no longer compiles (= broken correspondence, recorded)."""
         out = self.tmp / name
         cmd = [cc] + VARIANTS[variant] + CPPFLAGS + ["-std=gnu11", "-w", "-iquote", f"{VERIF}/harness",
+                                                       "-include", f"{VERIF}/harness/sane_env.h",
                                                        f'-DREPO="{REPO}"']
         cmd += [str(VERIF / s) if not os.path.isabs(s) else s for s in sources]
         cmd += list(extra)
@@ -345,7 +346,9 @@ class Ctx:
         return out
 
     def run(self, exe, args=(), text=None, timeout=600, env=None):
-        e = dict(os.environ)
+        # libuv reads UV_* variables (UV_THREADPOOL_SIZE, UV_USE_IO_URING, ...): a harness only sees
+        # the ones its check passes explicitly, never what the caller's environment happens to hold
+        e = {k: v for k, v in os.environ.items() if not k.startswith("UV_")}
         e.setdefault("ASAN_OPTIONS", "detect_leaks=1:abort_on_error=0:exitcode=99")
         e.setdefault("UBSAN_OPTIONS", "print_stacktrace=1:halt_on_error=1:exitcode=98")
         if env:
